@@ -189,9 +189,10 @@ def main(tier):
         if v.get("k") == "DeclRefExpr":
             init = fwd.Forward(P, D).inits.get(v["r"])
             v = sc(init)
-        okd = v is not None and astq.is_this_field(P, v, "ptr_ptr_world")
+        v = fwd.see_through_accessor(P, D, v)
+        okd = v is not None and astq.is_this_field(P, v, fwd.world_field_name(P))
     if okd:
-        rep.ok(rule2, "~WorldBuilderWrapper deletes ptr_ptr_world as World*", D.nloc(dels[0]), D.qn)
+        rep.ok(rule2, "~WorldBuilderWrapper deletes the stored world as World*", D.nloc(dels[0]), D.qn)
     else:
         rep.violation(rule2, "~WorldBuilderWrapper", D.loc, D.qn, "", "does not delete exactly the stored world", key=rule2 + "|dtor")
     # the wrappers add no state of their own: effect analysis rooted at the wrapper query functions (out-parameters allowed)
